@@ -15,7 +15,7 @@ RULE = ("models covering every member type (constitutive / unimolecular / bimole
 ASSUMPTIONS = ["shallow copy.copy is not covered (the property speaks of pickles and deep copies)", "observation equality is exact (same code, same seed)"]
 RUN_OPTS = {"batch_size": 4, "timeout_per_case": 120.0}
 MINIMA = {"*": {"model_copies_compared": 150, "independence_checks": 100, "lineage_model_copies": 20, "result_objects_pickled": 100,
-                "lineages_pickled": 5, "min_member_type_count": 10, "edit_equivalence_checks": 100}}
+                "lineages_pickled": 5, "min_member_type_count": 10, "edit_equivalence_checks": 100, "partial_lineages_copied": 20}}
 
 MEMBERS = ["ConstitutivePropensity", "UnimolecularPropensity", "BimolecularPropensity", "MassActionPropensity", "PositiveHillPropensity",
            "NegativeHillPropensity", "PositiveProportionalHillPropensity", "NegativeProportionalHillPropensity", "GeneralPropensity",
@@ -429,6 +429,40 @@ def run_results(case):
                     if (d_old is None) != (d_new is None) or (d_old is not None and new[pos[id(d_old)]] is not d_new):
                         bad("lineage-links:Lineage", "schnitz %d: daughter link is not the restored object of the same index" % i)
                         break
+        # a sub-lineage (one cell and its descendants) and a lineage assembled from part of a family: links that leave
+        # the container (the chosen cell's mother, and through her the sister) are part of what must survive
+        import copy as _copy
+        nonfounders = [i for i in range(lin.py_size()) if lin.py_get_schnitz(i).py_get_parent() is not None]
+        if nonfounders:
+            ci = nonfounders[case["seed"] % len(nonfounders)]
+            cell = lin.py_get_schnitz(ci)
+            sub = cell.get_sub_lineage()
+            part = ExperimentalLineage({"A": 0, "B": 1})
+            for i in nonfounders:
+                part.py_add_schnitz(lin.py_get_schnitz(i))
+            for name, obj, root_old in (("sub-lineage", sub, cell), ("partial ExperimentalLineage", part, lin.py_get_schnitz(nonfounders[0]))):
+                for how in ("pickle", "deepcopy"):
+                    C["partial_lineages_copied"] += 1
+                    try:
+                        obj2 = pickle.loads(pickle.dumps(obj, protocol=proto)) if how == "pickle" else _copy.deepcopy(obj)
+                    except Exception as e:
+                        bad("cannot-be-pickled:" + name, "%s (%s) raised %r" % (name, how, e))
+                        continue
+                    if obj2.py_size() != obj.py_size():
+                        bad("lineage-links:" + name, "%s has %d schnitzes after %s, %d before" % (name, obj2.py_size(), how, obj.py_size()))
+                        continue
+                    r2 = obj2.py_get_schnitz(0)
+                    p_old, p_new = root_old.py_get_parent(), r2.py_get_parent()
+                    if p_new is None:
+                        bad("lineage-links:" + name, "%s after %s: the first cell has lost its mother (the mother is outside the container)" % (name, how))
+                        continue
+                    if not (eq(p_old.py_get_time(), p_new.py_get_time()) and eq(p_old.py_get_data(), p_new.py_get_data())):
+                        bad("result-data-lost:" + name, "%s after %s: the restored mother's record differs" % (name, how))
+                    dn = p_new.py_get_daughters()
+                    if dn is None or not any(d is r2 for d in dn):
+                        bad("lineage-links:" + name, "%s after %s: the restored mother does not list the cell as her daughter (links not mutual)" % (name, how))
+                    elif sum(d is not None for d in dn) != sum(d is not None for d in p_old.py_get_daughters()):
+                        bad("lineage-links:" + name, "%s after %s: the sister reachable through the mother is gone" % (name, how))
         el = ExperimentalLineage({"A": 0, "B": 1})
         for i in range(lin.py_size()):
             el.py_add_schnitz(lin.py_get_schnitz(i))
